@@ -130,22 +130,60 @@ def r_narrow(ctx):
 
 def r_finite(ctx):
     rid = "C07.finite"
-    ctx.rule(rid, "in convert_number_to_type2 every f64 obtained from parse::<f64>() / parse_hexf64 is tested with is_finite() before it is "
-                  "stored in Type2::FloatValue (Rust parses out-of-range decimal floats to inf)", floor=2)
+    ctx.rule(rid, "convert_number_to_type2 on a float literal: when the standard parser yields a finite value the literal becomes "
+                  "Type2::FloatValue with exactly that value; when it yields an infinity (Rust parses out-of-range decimal floats such as "
+                  "1e999 to inf) or fails, the document is rejected — never a FloatValue holding inf (abstract evaluation with the "
+                  "parser's outcome scripted, both cfg twins)", floor=6)
     f = ctx.facts
+    from absint import PyIter
+    inf = float("inf")
     for fi in f.fn_all(B, "convert_number_to_type2"):
         cfgk = ",".join(fi.cfg) or "any"
-        for m in vf.find(fi.node, "match"):
-            for arm in m["arms"]:
-                p = vf.pat_path(arm["pat"])
-                if p in ("Rule::float_value", "Rule::hexfloat"):
-                    has_parse = any((x["k"] == "mcall" and x["m"] == "parse") or (x["k"] == "call" and vf.src(x["f"]).endswith("parse_hexf64")) for x in vf.walk(arm["body"]))
-                    has_check = any(x["k"] == "mcall" and x["m"] in ("is_finite", "is_infinite") for x in vf.walk(arm["body"]))
-                    key = "%s[%s]|%s" % (fi.name, cfgk, p[6:])
-                    ctx.site(rid, key, B, arm["l"], {"parses": has_parse, "finite_check": has_check})
-                    if has_parse and not has_check and p == "Rule::float_value":
-                        ctx.violation(rid, key, B, arm["l"], "%s: the parsed f64 is stored without an is_finite() test: `1e999` becomes +inf instead of "
-                                      "being rejected" % key)
+        off = ("lsp", "_build-parser") + (("ast-span",) if 'not(feature="ast-span")' in cfgk else ())
+        cfg = lambda c, off=off: absint.eval_cfg(c, lambda ft: ft not in off)
+        for label, outcome in (("finite", ("Ok", 1.5)), ("+inf", ("Ok", inf)), ("-inf", ("Ok", -inf)), ("parse error", ("Err", OPAQUE))):
+            key = "%s[%s]|%s" % (fi.name, cfgk, label)
+            inner = ("enum", "Pair", {"rule": "float_value", "text": "1.5", "children": []})
+            pair = ("enum", "Pair", {"rule": "number", "text": "1.5", "children": [inner]})
+
+            def on_call(kind, name, node, args, recv, outcome=outcome):
+                if kind == "method" and isinstance(recv, tuple) and recv[:2] == ("enum", "Pair"):
+                    d = recv[2]
+                    if name == "as_rule":
+                        return ("enum", "Rule::" + d["rule"], [])
+                    if name == "into_inner":
+                        return PyIter(d["children"])
+                    if name == "as_str":
+                        return ("str", d["text"])
+                    if name in ("as_span", "clone"):
+                        return OPAQUE if name == "as_span" else recv
+                if kind == "method" and name == "parse" and isinstance(recv, tuple) and recv[:1] == ("str",):
+                    return outcome
+                if kind == "fn" and name and name.split("::")[-1] in ("pest_span_to_position", "pest_span_to_ast_span"):
+                    return OPAQUE
+                return NotImplemented
+            env = {"pair": pair, "input": OPAQUE, "span": OPAQUE}
+            it = Interp(env=env, cfg=cfg, on_call=on_call)
+            try:
+                try:
+                    res = it.block(fi.node["body"])
+                except Return as r:
+                    res = r.v
+            except Unknown as e:
+                ctx.incomplete_msg(rid, "%s: %s" % (key, e))
+                continue
+            val = None
+            if isinstance(res, tuple) and res[0] == "Ok" and isinstance(res[1], tuple) and res[1][:1] == ("enum",) and isinstance(res[1][2], dict):
+                val = res[1][2].get("value")
+            ok = isinstance(res, tuple) and res[0] == "Ok"
+            ctx.site(rid, key, B, fi.line, {"result": "Ok(%r)" % (val,) if ok else "Err"})
+            if label == "finite":
+                if not ok or val != 1.5:
+                    ctx.violation(rid, "%s[%s]|finite" % (fi.name, cfgk), B, fi.line, "a finite float literal yields %r instead of FloatValue(1.5)" % (res if not ok else val,))
+            elif ok:
+                ctx.violation(rid, "%s[%s]|float_value" % (fi.name, cfgk), B, fi.line,
+                              "%s: when the parser yields %s the literal is stored (FloatValue(%r)) instead of being rejected: `1e999` becomes inf" % (key, label, val))
+
 
 
 FALLIBLE = {"from_str_radix", "from_u32", "parse", "try_from", "try_into", "to_digit", "decode", "decode_mut", "decode_len", "from_utf8", "parse_hexf64",
